@@ -120,7 +120,12 @@ def _element(kind, e):
     from indi.device import properties
 
     cls = getattr(properties, kind if kind != "BLOB" else "BLOB")
-    kwargs = {"label": e.get("label"), "enabled": e.get("enabled", True)}
+    # what equals the documented default is left out, so that the library's own defaults are exercised
+    kwargs = {}
+    if e.get("label") is not None:
+        kwargs["label"] = e["label"]
+    if not e.get("enabled", True):
+        kwargs["enabled"] = False
     if e.get("default") is not None:
         kwargs["default"] = e["default"]
         if kind == "BLOB":
